@@ -19,6 +19,11 @@ func (a *Act) safe(kind, label, goal, src string, pos token.Pos) {
 		label = a.label + label
 	}
 	a.vc.oblige("safe:"+kind, label, a.cur.reach, goal, src, a.posOf(pos))
+	// an execution in which the check fails panics here and never reaches what follows:
+	// everything after this point is about executions in which it held
+	if goal != "false" {
+		a.vc.assume(a.cur.reach, goal)
+	}
 }
 
 func exprText(fn *ssa.Function, v ssa.Value) string {
